@@ -25,32 +25,72 @@ DKINDS = ["termdict"] + ["model:" + m for m in MODELS]
 
 S = "bf_product(spin, bf_n(D))"
 NC = "not allconst(D)"
+VV = "valid, value"
+
+
+def _ens(D, spin, valid, value):
+    """postcondition of the solver core, for a model expression D, a spin flag and the two functions"""
+    S = "bf_product(%s, bf_n(%s))" % (spin, D)
+    NC = "not allconst(%s)" % D
+    a = (D, valid, value)
+    return [
+        # ---- constant or empty model
+        "implies(allconst(%s), result[0] == constpart(%s))" % (D, D),
+        "implies(allconst(%s) and not all_solutions, bf_nosol(result[1]))" % D,
+        "implies(allconst(%s) and all_solutions, bf_one_empty(result[1]))" % D,
+        # ---- objective: None iff nothing is valid; otherwise the minimum over the valid tuples, attained
+        "implies(%s, iff(result[0] is None, bf_none_valid(%s, %s)))" % (NC, S, valid),
+        "implies(%s, (bf_is_min(result[0], %s, %s, %s, %s) and bf_attained(result[0], %s, %s, %s, %s)) "
+        "if result[0] is not None else True)" % ((NC, S) + a + (S,) + a),
+        # ---- one solution
+        "implies(%s and not all_solutions, bf_attains(result[1], result[0], %s, %s, %s, %s) if result[0] is not None "
+        "else bf_nosol(result[1]))" % ((NC, S) + a),
+        # ---- all solutions
+        "implies(%s and all_solutions, bf_list_is(result[1], result[0], %s, %s, %s, %s) if result[0] is not None "
+        "else bf_nolist(result[1]))" % ((NC, S) + a)]
+
+
+_REQ = ["wf({0}) if not typeis({0}, 'dict') else True", "({0}._degree >= 0) if not typeis({0}, 'dict') else True"]
 
 contract(M + "_solve_bruteforce", props=["C09", "C19"],
          instances=[{"D": d, "all_solutions": "bool", "valid": "asgpred", "spin": "bool", "value": "asgfun"}
                     for d in DKINDS],
-         requires=["wf(D) if not typeis(D, 'dict') else True",
-                   "(D._degree >= 0) if not typeis(D, 'dict') else True"],
-         returns=None,
-         ensures=[
-             # ---- constant or empty model
-             "implies(allconst(D), result[0] == constpart(D))",
-             "implies(allconst(D) and not all_solutions, bf_nosol(result[1]))",
-             "implies(allconst(D) and all_solutions, bf_one_empty(result[1]))",
-             # ---- objective
-             "implies(%s, iff(result[0] is None, bf_none_valid(%s)))" % (NC, S),
-             "implies(%s, bf_is_min(result[0], %s, D) if result[0] is not None else True)" % (NC, S),
-             # ---- one solution
-             "implies(%s and not all_solutions, bf_attains(result[1], result[0], %s, D) if result[0] is not None "
-             "else bf_nosol(result[1]))" % (NC, S),
-             # ---- all solutions
-             "implies(%s and all_solutions, bf_list_is(result[1], result[0], %s, D) if result[0] is not None "
-             "else bf_nolist(result[1]))" % (NC, S)],
+         requires=[r.format("D") for r in _REQ],
+         returns="bfresult",
+         ensures=_ens("D", "spin", "valid", "value"),
          loops={1: {"invariant": "seteq(var, keylabels(visited))"},
                 2: {"invariant":
-                    "iff(best[0] is None, bf_none_valid(visited)) and "
-                    "((bf_is_min(best[0], visited, D) and bf_attains(best[1], best[0], visited, D)) "
+                    "iff(best[0] is None, bf_none_valid(visited, valid)) and "
+                    "((bf_is_min(best[0], visited, D, valid, value) and bf_attains(best[1], best[0], visited, D, valid, value)) "
                     "if best[0] is not None else bf_nosol(best[1])) and "
-                    "(bf_sols_ok(all_sols, best[0], visited, D) if all_solutions else True)",
+                    "(bf_sols_ok(all_sols, best[0], visited, D, valid, value) if all_solutions else True)",
                     "vars": {"best": "bestpair"}}},
          note="the enumeration loop by invariant over the set of visited tuples; valid / value abstract")
+
+# ---- the four public functions: the core with the right domain and the right value function
+for fname, arg, spin, vf in (("solve_pubo_bruteforce", "P", "False", "pubo_value"),
+                             ("solve_qubo_bruteforce", "Q", "False", "qubo_value"),
+                             ("solve_puso_bruteforce", "H", "True", "puso_value"),
+                             ("solve_quso_bruteforce", "L", "True", "quso_value")):
+    contract(M + fname, props=["C09", "C19"],
+             instances=[{arg: d, "all_solutions": "bool", "valid": "asgpred"} for d in DKINDS],
+             requires=[r.format(arg) for r in _REQ],
+             returns="bfresult",
+             ensures=_ens(arg, spin, "valid", "valuefn('%s')" % vf))
+
+# ---- the solve_bruteforce methods: the solution part of the matching function, with the model's own validity test
+for mod, cls, spin, vf, kinds in (
+        ("qubovert.utils._pubomatrix", "PUBOMatrix", "False", "pubo_value", ["PUBOMatrix", "PUBO", "PCBO"]),
+        ("qubovert.utils._qubomatrix", "QUBOMatrix", "False", "qubo_value", ["QUBOMatrix", "QUBO"]),
+        ("qubovert.utils._pusomatrix", "PUSOMatrix", "True", "puso_value", ["PUSOMatrix", "PUSO", "PCSO"]),
+        ("qubovert.utils._qusomatrix", "QUSOMatrix", "True", "quso_value", ["QUSOMatrix", "QUSO"])):
+    S_ = "bf_product(%s, bf_n(self))" % spin
+    a_ = "%s, self, validfn_of(self), valuefn('%s')" % (S_, vf)
+    contract("%s:%s.solve_bruteforce" % (mod, cls), props=["C09", "C19"],
+             instances=[{"self": "model:" + k, "all_solutions": "bool"} for k in kinds],
+             requires=[r.format("self") for r in _REQ],
+             returns="bfsolution",
+             ensures=["implies(allconst(self) and not all_solutions, bf_nosol(result))",
+                      "implies(allconst(self) and all_solutions, bf_one_empty(result))",
+                      "implies(not allconst(self) and not all_solutions, bf_solution_ok(result, %s))" % a_,
+                      "implies(not allconst(self) and all_solutions, bf_solutions_ok(result, %s))" % a_])
